@@ -189,7 +189,8 @@ class SetItem(Operation):
                     mask = np.zeros_like(sub_sel)
                     mask[first_inds] = 1
                     mask = mask.reshape(grad_sel.shape)
-                    grad_sel *= mask
+                    # (assignment, not `*= mask`: an infinite gradient must leave 0, not nan)
+                    grad_sel[mask == 0] = 0
 
             # handle the edge case of "projecting down" on setitem. E.g:
             # x = Tensor([0, 1, 2])
